@@ -86,6 +86,23 @@ impl Cfg {
     }
 }
 
+impl Cfg {
+    /// upper bound on the number of showdowns any correct iterator can yield for this configuration:
+    /// positions in scope x product of the range sizes.  Recorders stop one past it, so that an iterator
+    /// that never ends shows up as an event the specification rejects instead of exhausting memory.
+    pub fn max_deals(&self) -> usize {
+        let (from, to) = if self.scoped { (self.from, self.to) } else { ((0, 1), (48, 49)) };
+        let lin = |p: (u8, u8)| -> i64 {
+            let (t, r) = (p.0.min(48) as i64, p.1.min(49) as i64);
+            // number of positions before (t, r) in lexicographic order
+            t * 48 - t * (t - 1) / 2 + (r - t - 1)
+        };
+        let npos = (lin(to) - lin(from)).max(0) as usize + 2;
+        let prod = self.ranges.iter().fold(1usize, |a, r| a.saturating_mul(r.len().max(1)));
+        npos.saturating_mul(prod)
+    }
+}
+
 /// one yielded showdown as a C02 `next` event
 pub fn next_json(sd: &Showdown) -> String {
     let b: Vec<usize> = sd.board().iter().map(card_id).collect();
@@ -196,11 +213,17 @@ pub fn run_block(cfg: &Cfg, out: &mut Out, extra_after: usize) -> usize {
     let c = cfg.clone();
     let res = guarded(move || {
         let mut lines = vec![];
+        let cap = c.max_deals();
         let mut it = c.evaluator().into_iter();
         let mut n = 0usize;
         while let Some(sd) = it.next() {
             lines.push(next_json(&sd));
             n += 1;
+            if n > cap {
+                // more showdowns than deals exist: the iterator does not terminate properly
+                lines.push("{\"op\":\"runaway\"}".to_string());
+                return (lines, n);
+            }
         }
         lines.push("{\"op\":\"none\"}".to_string());
         for _ in 0..extra_after {
@@ -398,9 +421,13 @@ pub fn drain(args: &Args, mut out: Out) -> usize {
         .stack_size(stack)
         .spawn(move || {
             let mut n = 0u64;
+            let cap = cfg.max_deals() as u64;
             let mut it = cfg.evaluator().into_iter();
             while let Some(_sd) = it.next() {
                 n += 1;
+                if n > cap {
+                    return (n, false); // runaway: more showdowns than deals exist
+                }
             }
             // exhausted must be sticky
             let again = it.next().is_none() && it.next().is_none();
